@@ -41,6 +41,11 @@ var kindURL = map[string]string{
 	"SkReplenishLostGrains":           "/palomachain.paloma.skyway.MsgReplenishLostGrainsProposal",
 	"SkSetERC20Mapping":               "/palomachain.paloma.skyway.MsgSetERC20MappingProposal",
 	"SkSetERC20ToTokenDenom":          "/palomachain.paloma.skyway.MsgSetERC20ToTokenDenom",
+	"SkSetERC20ToTokenDenomHanded":    "/palomachain.paloma.skyway.MsgSetERC20ToTokenDenom",
+	"TfMintHanded":                    "/palomachain.paloma.tokenfactory.MsgMint",
+	"TfBurnHanded":                    "/palomachain.paloma.tokenfactory.MsgBurn",
+	"TfChangeAdminHanded":             "/palomachain.paloma.tokenfactory.MsgChangeAdmin",
+	"TfSetDenomMetadataHanded":        "/palomachain.paloma.tokenfactory.MsgSetDenomMetadata",
 	"SkLegacyBatchSendToEthClaim":     "/palomachain.paloma.skyway.MsgBatchSendToEthClaim",
 	"CoAddSignatures":                 "/palomachain.paloma.consensus.MsgAddMessagesSignatures",
 	"CoAddGasEstimates":               "/palomachain.paloma.consensus.MsgAddMessageGasEstimates",
@@ -211,6 +216,20 @@ func (w *world) build(kind string, s, c, n int) sdk.Msg {
 		return &palomatypes.MsgSetLegacyLightNodeClients{Metadata: md}
 	case "PaUpdateParams":
 		return &palomatypes.MsgUpdateParams{Authority: nAddr, Params: palomatypes.Params{GasExemptAddresses: []string{w.v2().Addr.String()}}, Metadata: md}
+	// ---- ownership handed over: the denom whose CURRENT admin is the named principal; its name carries the other
+	// principal (the original creator, who gave the admin role away)
+	case "SkSetERC20ToTokenDenomHanded":
+		return &st.MsgSetERC20ToTokenDenom{Metadata: md, Denom: w.handedOf(n), ChainReferenceId: chain, Erc20: factoryERC20}
+	case "TfMintHanded":
+		return &tftypes.MsgMint{Amount: sdk.NewInt64Coin(w.handedOf(n), 2), Metadata: md}
+	case "TfBurnHanded":
+		return &tftypes.MsgBurn{Amount: sdk.NewInt64Coin(w.handedOf(n), 2), Metadata: md}
+	case "TfChangeAdminHanded":
+		return &tftypes.MsgChangeAdmin{Denom: w.handedOf(n), NewAdmin: w.v2().Addr.String(), Metadata: md}
+	case "TfSetDenomMetadataHanded":
+		d := w.handedOf(n)
+		return &tftypes.MsgSetDenomMetadata{Metadata: md, DenomMetadata: banktypes.Metadata{Description: "set", Base: d, Display: d, Name: "N", Symbol: "SET",
+			DenomUnits: []*banktypes.DenomUnit{{Denom: d, Exponent: 0}}}}
 	case "TfCreateDenom":
 		return &tftypes.MsgCreateDenom{Subdenom: "sb", Metadata: md}
 	case "TfMint":
@@ -259,6 +278,14 @@ func (w *world) uscOf(n int) uint64 {
 		return id
 	}
 	return 999
+}
+
+// handedOf: the factory denom whose admin role was handed to n (a denom nobody created for Gov).
+func (w *world) handedOf(n int) string {
+	if d, ok := w.handed[n]; ok {
+		return d
+	}
+	return "factory/" + w.addr(n).String() + "/sh"
 }
 
 func (w *world) denomOf(n int) string {
